@@ -161,6 +161,22 @@ def family(kind, cfg):
     if kind == "plain":
         return dataclasses.make_dataclass("Plain", [("a", int, F(default=1)), ("n", typing.Optional[str], F(default=None))],
                                           namespace=ns)
+    if kind == "slots":
+        # slots=True leaves a member descriptor in the class namespace for every field, required ones included
+        return dataclasses.make_dataclass(
+            "Slotted", [("r", int), ("x", int, F(default=7)), ("n", typing.Optional[str], F(default=None)),
+                        ("l", typing.List[int], F(default_factory=list))],
+            bases=(DataClassDictMixin,), namespace=ns, slots=True)
+    if kind == "aliases":
+        # spellings the (de)serializer supports next to the plain ones: PEP 695 aliases, LiteralString
+        import typing_extensions as _te
+        OptDate = typing.TypeAliasType("OptDate", typing.Optional[datetime.date])
+        Ints = typing.TypeAliasType("Ints", typing.List[int])
+        return dataclasses.make_dataclass(
+            "Spelled", [("ls", _te.LiteralString), ("od", OptDate, F(default=None)), ("x", Ints, F(default_factory=list)),
+                        ("lo", typing.List[typing.Annotated[OptDate, "m"]], F(default_factory=list)),
+                        ("u", typing.Union[OptDate, int], F(default=1))],
+            bases=(DataClassDictMixin,), namespace=ns)
     raise KeyError(kind)
 
 
@@ -186,6 +202,12 @@ def check_built(schema, ctx_defs, prefix, sig, **info):
     st, doc = call(schema.to_dict)
     if st == "exc":
         return fail("C20/to_dict-raised:%s" % type(doc).__name__, exc=doc, **info)
+    try:
+        import json as _json
+
+        _json.dumps(doc)
+    except Exception as e:
+        return fail("C20/document-not-json", doc=repr(doc)[:300], error=str(e)[:200], **info)
     try:
         jsonschema.Draft202012Validator.check_schema(doc)
     except Exception as e:
